@@ -99,7 +99,13 @@ def run(ctx):
             amt_i = [i for i in range(pf_.arg_count) if pf_.locals[i + 1]["ty"].endswith("Uint128")]
             amt_p = sym.param(pf_.key, amt_i[0], pf_.param_name(amt_i[0])) if amt_i else None
             zero_answer = False
-            for p_ in ix.ok_paths(pf_):
+            pf_paths = ix.ok_paths(pf_)
+            try:
+                # (the public pricing function may be a thin wrapper: open the helper the amount is handed to)
+                pf_paths = splice(ix, pf_paths, lambda e, amt_p=amt_p: amt_p is not None and any(ix.inline(a_) == amt_p for a_ in e.args), rounds=2)
+            except Exception:
+                pass
+            for p_ in pf_paths:
                 az = None
                 for (at, o, _b, _l) in p_.conds:
                     a2 = ix.inline(at)
